@@ -479,10 +479,4 @@ Example rollback_restores_example :
   fst (step (run (fst (step db OBegin)) ops) ORollback) = refresh db.
 Proof.
   vm_compute. repeat split; try congruence.
-  intros [k|]; [|reflexivity].
-  destruct (Z.eq_dec k 12) as [->|H12]; [reflexivity|].
-  destruct (Z.eq_dec k 10) as [->|H10]; [reflexivity|].
-  destruct (k =? 12) eqn:E1; [apply Z.eqb_eq in E1; congruence|].
-  destruct (k =? 10) eqn:E2; [apply Z.eqb_eq in E2; congruence|]. 
-  reflexivity.
 Qed.
